@@ -90,8 +90,27 @@ def wrapper_type(name, unique, base=None, beh='inplace'):
                     return start_response(status, headers, exc_info) if exc_info else start_response(status, headers)
             return inner(env_in, sr)
         return wrapped
+    def init(self, tag):
+        self.tag = tag
+        if 'falsy' in self.beh:
+            # the wrapper is a callable OBJECT that keeps a log of what it wrapped -- empty, hence falsy, when the
+            # application is constructed
+            self.wsgi_wrapper = _LoggingWrapper(self, type(self).wsgi_wrapper)
     return type(str('W' + name), (base or Middleware,), {'unique': unique, 'wsgi_wrapper': wsgi_wrapper, 'beh': beh,
-                                                         '__init__': lambda self, tag: setattr(self, 'tag', tag)})
+                                                         '__init__': init})
+
+
+class _LoggingWrapper(object):
+    def __init__(self, mw, func):
+        self.mw, self.func, self.log = mw, func, []
+
+    def __len__(self):
+        return len(self.log)
+
+    def __call__(self, inner):
+        wrapped = self.func(self.mw, inner)
+        self.log.append(wrapped)
+        return wrapped
 
 
 def wrapper_header(tag):
@@ -164,14 +183,14 @@ class C13(Check):
     level_text = ('Seeded search over server behaviours x response kinds x wrapper stacks with a protocol monitor; the '
                   'route-kind x method x consumption x file-wrapper grid is swept once per run for a sampled wrapper stack.')
     level_note = 'Trusted: wsgiref.validate as the reading of PEP 3333; the monitor in sim/core/gateway.py.'
-    required_probes = ('big-file-without-extension-served', 'reroute-target-with-other-parameter-names', 'wrapper-passes-copy-of-environ', 'wrapper-decorates-start-response', 'empty-file-through-server-file-wrapper', 'reroute-to-wrapped-application', 'conditional-static-304', 'reroute-through-rewritten-path', 'first-requests-concurrent', 'file-released-after-abort', 'file-released-without-iteration', 'head-no-body', 'reroute-same-environ',
+    required_probes = ('wrapper-object-falsy-at-construction', 'filesystem-error-after-the-file-was-opened', 'big-file-without-extension-served', 'reroute-target-with-other-parameter-names', 'wrapper-passes-copy-of-environ', 'wrapper-decorates-start-response', 'empty-file-through-server-file-wrapper', 'reroute-to-wrapped-application', 'conditional-static-304', 'reroute-through-rewritten-path', 'first-requests-concurrent', 'file-released-after-abort', 'file-released-without-iteration', 'head-no-body', 'reroute-same-environ',
                        'custom-file-wrapper-used', 'debug-500', 'gzip-applied')
 
     def generate(self, seed, tier):
         S = Streams(seed)
         c, rng = S['config'], S['ops']
         names = ['A', 'B', 'C', 'D', 'E']
-        types = dict((n, {'unique': c.random() < 0.75, 'beh': c.choice(['inplace', 'inplace', 'copy', 'sr', 'copy+sr'])}) for n in names)
+        types = dict((n, {'unique': c.random() < 0.75, 'beh': c.choice(['inplace', 'inplace', 'copy', 'sr', 'copy+sr', 'inplace+falsy', 'sr+falsy'])}) for n in names)
         for i, n in enumerate(names[1:], 1):
             if c.random() < 0.3:
                 types[n]['base'] = names[c.randrange(i)]
@@ -216,7 +235,13 @@ class C13(Check):
 
     @staticmethod
     def gen_op(rng, route, method):
-        return {'route': route, 'method': method, 'headers': rng.choice(HEADER_SETS),
+        fs = []
+        if route.startswith('static') and rng.random() < 0.35:
+            # a filesystem call of this request fails (the file was removed, became unreadable, the disk errs) --
+            # also AFTER the file was opened: whatever the answer is, nothing may stay open
+            import errno
+            fs = [{'call': rng.randint(1, 8), 'kind': 'oserror', 'errno': rng.choice([errno.ENOENT, errno.ENOENT, errno.EACCES, errno.EIO, errno.ESTALE])}]
+        return {'route': route, 'method': method, 'headers': rng.choice(HEADER_SETS), 'fs_faults': fs,
                 'consume': rng.choice(['drain', 'drain', 'abort', 'noiter']), 'abort_after': rng.choice([0, 1, 2]),
                 'fw': rng.choice([None, None, 'wsgiref', 'sim'])}
 
@@ -374,13 +399,18 @@ class C13(Check):
             snap.update(environ)
             seen_env.append(environ)
             return app(environ, start_response)
-        seam.begin()
+        seam.begin(op.get('fs_faults') or ())
         n_seen = len(target.seen)
         ex = call_app(shim, env, consume=op['consume'], abort_after=op.get('abort_after', 0), validate=True)
         env = seen_env[0] if seen_env else env
         leaked = seam.open_handles()
         opened = len(seam.ledger)
+        fs_fired = list(seam.fired)
         seam.begin()
+        for kind, site, _ in fs_fired:
+            res.fire('fs:%s@%s' % (kind, site))
+        if fs_fired and opened:
+            res.probe('filesystem-error-after-the-file-was-opened')
         route, method = op['route'], op['method']
         ctx = 'step %d %s %s (%s) consume=%s/%s fw=%s debug=%s' % (step, method, PATH[route], route, op['consume'],
                                                                  op.get('abort_after'), op.get('fw'), cfg['debug'])
@@ -398,6 +428,14 @@ class C13(Check):
         if fw is not None:
             res.fire('file_wrapper:' + op['fw'])
         # --- protocol ---------------------------------------------------------
+        if ex.escaped is not None and ex.escaped_phase in ('iter', 'close') and any(site == 'read' for _, site, _ in fs_fired):
+            # a read error while the body is being sent: the server sees the exception (nothing else is possible
+            # after start_response); the file must be released all the same
+            res.probe('read-error-while-sending-body')
+            if leaked:
+                res.violate(K + 'file-not-released:read-error@%s' % ('fw-' + str(op.get('fw'))),
+                            ctx + ' -> after close() still open: %r' % [os.path.basename(p) for p in leaked], step)
+            return
         if ex.escaped is not None:
             res.violate(K + 'exception-escaped:%s@%s' % (type(ex.escaped).__name__, route), ctx + ' -> %r (phase %s)' % (ex.escaped, ex.escaped_phase), step)
             return
@@ -446,6 +484,8 @@ class C13(Check):
             return
         if sr_tags:
             res.probe('wrapper-decorates-start-response')
+        if any('falsy' in cfg['types'][t.split(':')[1]].get('beh', '') for t in order):
+            res.probe('wrapper-object-falsy-at-construction')
         # what the innermost start_response-decorating wrapper was handed / else what the server got
         inner_status, inner_headers = ex.status, ex.headers
         if sr_tags and env.get('sim.sr'):
@@ -514,6 +554,10 @@ class C13(Check):
             want = 200 if method in ('GET', 'HEAD') else 405
         if route in ('cache',) and 'If-None-Match' in op['headers']:
             want = None
+        if fs_fired:
+            if ex.code not in (200, 304, 403, 404):
+                res.violate(K + 'status-%s@static-with-filesystem-error' % ex.code, ctx + ' -> %s after %r' % (ex.status, fs_fired), step)
+            return
         if want is not None and ex.code != want:
             res.violate(K + 'status-%s-not-%s@%s' % (ex.code, want, route), ctx + ' -> %s' % ex.status, step)
             return
